@@ -22,6 +22,10 @@ pub const OPS: &[&str] = &[
     "ne-tail",
     "ne-length",
     "datum-tail-owned-drop",
+    // the same list written in fully dotted notation (1 . (1 . (1 . ()))): every element is one
+    // nesting level, so the parser's bound must stop it (or it must be read without recursion)
+    "parse-dotted-notation-value",
+    "parse-dotted-notation-datum",
     "datum-ne-everywhere",
     "datum-ne-last",
     "to_string",
@@ -228,6 +232,19 @@ pub fn child_listop(c: &J) -> String {
                 let d = v.as_cons().map(|c| c.iter().count()).unwrap_or(0);
                 std::mem::forget(v);
                 return format!("ok {}", d);
+            }
+            "parse-dotted-notation-value" | "parse-dotted-notation-datum" => {
+                let mut t = String::with_capacity(n * 7 + 4);
+                for _ in 0..n {
+                    t.push_str("(1 . ");
+                }
+                t.push_str("()");
+                for _ in 0..n {
+                    t.push(')');
+                }
+                // accepted or rejected — it has to come back
+                let r = if op.ends_with("value") { lexpr::from_reader(t.as_bytes()).map(std::mem::forget).is_ok() } else { lexpr::datum::from_reader(t.as_bytes()).map(std::mem::forget).is_ok() };
+                return format!("ok {}", r as usize);
             }
             "datum-tail-owned-drop" => {
                 // an owned datum made from the tail of a long list (its span tree starts at an
